@@ -10,11 +10,40 @@ A = 'wn/_add.py'
 M = 'wn/morphy.py'
 U = 'wn/_util.py'
 Q = 'wn/_queries.py'
+L = 'wn/lmf.py'
+P = 'wn/project.py'
 MUTANTS = [
-    {'name': 'revert-sorted-common', 'expect': 'C16-R1',
-     'edits': [E(T, "    for ss in sorted(common):", "    for ss in common:")]},
+    {"name": "revert-sorted-common", "expect": "C16-R1",
+     'edits': [E(T, "    for ss in _sorted_common(common, from_self):", "    for ss in common:")]},
     {'name': 'common_hypernyms-list-of-set', 'expect': 'C16-R1',
-     'edits': [E(T, "    return sorted(common)", "    return list(common)")]},
+     'edits': [E(T, "    return _sorted_common(common, from_self)", "    return list(common)")]},
+    {'name': 'common-keyless-sorted-set-loop', 'expect': 'C16-R7',
+     'edits': [E(T, "    for ss in _sorted_common(common, from_self):", "    for ss in sorted(common):")]},
+    {'name': 'common-keyless-sorted-set-return', 'expect': 'C16-R7',
+     'edits': [E(T, "    return _sorted_common(common, from_self)", "    return sorted(common)")]},
+    {'name': 'sorted-common-from-the-set', 'expect': 'C16-R7',
+     'edits': [E(T, "    return sorted(unique_list(ss for ss in flatten(paths) if ss in common))", "    return sorted(common)")]},
+    {'name': 'benign-sorted-common-list-comprehension', 'expect': 'silent',
+     'edits': [E(T, "    return sorted(unique_list(ss for ss in flatten(paths) if ss in common))",
+                 "    ordered = unique_list(flatten(paths))\n    return sorted([ss for ss in ordered if ss in common])")]},
+    {'name': 'dump-writes-gzip-when-suffix-gz', 'expect': 'C16-R8',
+     'edits': [E(L, "import re\nfrom pathlib import Path\n", "import re\nimport gzip\nfrom pathlib import Path\n"),
+               E(L, "    with destination.open('wt', encoding='utf-8') as out:",
+                 "    with (gzip.open(destination, 'wt', encoding='utf-8') if destination.suffix == '.gz'\n          else destination.open('wt', encoding='utf-8')) as out:")]},
+    {'name': 'dump-stamps-the-time', 'expect': 'C16-R8',
+     'edits': [E(L, "import re\nfrom pathlib import Path\n", "import re\nimport time\nfrom pathlib import Path\n"),
+               E(L, "        print(doctype, file=out)\n", "        print(doctype, file=out)\n        print(f'<!-- written {time.strftime(\"%Y-%m-%d\")} -->', file=out)\n")]},
+    {'name': 'benign-decompress-through-a-local-opener', 'expect': 'silent',
+     'edits': [E(P, """            if gzipped:
+                with gzip.open(source, 'rb') as gzip_src:
+                    shutil.copyfileobj(gzip_src, tmp)  # type: ignore
+            else:  # xzipped
+                with lzma.open(source, 'rb') as lzma_src:
+                    shutil.copyfileobj(lzma_src, tmp)  # type: ignore
+""", """            opener = gzip.open if gzipped else lzma.open
+            with opener(source, 'rb') as compressed_src:
+                shutil.copyfileobj(compressed_src, tmp)  # type: ignore
+""")]},
     {'name': 'revert-export-sense-ids', 'expect': 'C16-R1',
      'edits': [E(X, "    sense_ids = [s['id'] for s in entry.get('senses', [])]", "    sense_ids = {s['id'] for s in entry.get('senses', [])}")]},
     {'name': 'export-frames-senses-unsorted', 'expect': 'C16-R1',
